@@ -12,7 +12,7 @@ CHECKS = {
              "library to a fixpoint; after every transition C_GetSessionInfo of every session and all closed handles are compared with "
              "the reference model (only-if direction for successes, unchanged-state for failures).",
         note="Bounded participants (<=4 sessions, 2+1 tokens, two PIN values per user); merged search assumes the canonical key "
-             "captures hidden state, cross-checked by the unmerged DFS to depth 3/4; trusted base: p11sh marshaller, Python model."),
+             "captures hidden state, cross-checked by the unmerged DFS to depth 3/4; trusted base: p11sh marshaller, Python model. Converse oracles: a permitted open / login / C_InitToken must succeed; on every transition a session-less token is probed in a throw-away snapshot (fresh session state, SO login, C_InitToken), so that hidden left-overs of closed sessions are seen before states merge."),
     "C11": dict(
         category="model_checking", design_ref="DESIGN.md 3/C11",
         technique="explicit-state BFS (depth-bounded, merged) + unmerged DFS over the real library against a handle-lifetime reference model",
@@ -60,7 +60,7 @@ CHECKS = {
         text="Every history up to depth 4 (quick) / 5 (thorough) is executed; after each action every token's label, serial, flags, PIN acceptance (both "
              "values of both user types), object set with attribute digests, held sessions and the number of uninitialised slots are compared with the "
              "model, so cross-token interference, lost or surviving state after re-initialisation and slot changes across restarts are all visible.",
-        note="File store; softhsm2-util actions and the SQLite store are not in this tier yet; two PIN values per user."),
+        note="File store; softhsm2-util actions and the SQLite store are not in this tier yet; two PIN values per user. softhsm2-util --init-token --free / --delete-token are actions (quick: separate depth-3 pass; thorough: full alphabet). A re-initialisation with the correct SO PIN and no open session must succeed (also as a look-ahead probe on every transition); the order in which held sessions were opened is part of the state."),
     "C07": dict(
         category="exploration", design_ref="DESIGN.md 3/C07 + Appendix E",
         technique="exhaustive enumeration of the full decision matrix (operation x key class/type x usage-flag variant x every CKM_* constant x allowed-list variant x slots.mechanisms configuration) on the real library with an only-if oracle from a reference table; plus unmerged depth-first enumeration of every call sequence (depth 4 quick / 5 thorough, 16 actions) for the always-authenticate clause",
@@ -79,7 +79,7 @@ CHECKS = {
              "the raw directory must contain no 8-byte window of any private value, the decoder must unwrap the same master key from both PIN blobs and "
              "decrypt every attribute to exactly the API's (and the harness's own stored) value, IVs must be pairwise distinct, a wrong PIN must open "
              "nothing and no mode bit may lie outside objectstore.umask.",
-        note="File store; trusted base: py/p11mc/storefmt.py, refsh (Botan), hashlib; values shorter than 8 bytes are only covered by the decoder comparison."),
+        note="File store; trusted base: py/p11mc/storefmt.py, refsh (Botan), hashlib; values shorter than 8 bytes are only covered by the decoder comparison. Both stores: the SQLite lane reads the database with Python's sqlite3 module (independent of the library) and applies the same scanner and decoder."),
     "C05": dict(
         category="model_checking", design_ref="DESIGN.md 3/C05",
         technique="explicit-state BFS over object histories on the real library with three observers per state (running instance, re-initialised instance, independent raw-file decoder) plus golden token directories written by the pinned commit",
@@ -97,7 +97,7 @@ CHECKS = {
              "(thorough); a protected key must answer CKR_ATTRIBUTE_SENSITIVE with CK_UNAVAILABLE_INFORMATION and an untouched buffer for every secret attribute "
              "alone and in mixed templates, must never be wrapped when unextractable or under an untrusted key when WRAP_WITH_TRUSTED, and protections may "
              "never weaken.",
-        note="<=2 live keys per state; taint scan only for keys whose value the harness knows; single DES unusable on this image."),
+        note="<=2 live keys per state; taint scan only for keys whose value the harness knows; single DES unusable on this image. Plus a template-length ladder: keys concatenated from a sensitive / unextractable key with caller templates of every length up to beyond the internal capacity (368 derivations) must inherit the protections."),
     "C08": dict(
         category="model_checking", design_ref="DESIGN.md 3/C08 + Appendix F",
         technique="exhaustive case matrix (every attribute type x set/copy x template shape x object kind; history attributes supplied to every creating operation) plus explicit-state BFS over make/set/copy/derive histories with a truth model of the four history attributes, all on the real library",
@@ -105,7 +105,7 @@ CHECKS = {
              "cases, each in its own snapshot, against the clause list of Appendix F. Part B enumerates all make/set/copy/derive histories to depth 3 (quick) / "
              "4 (thorough) and after every step reads CKA_LOCAL, CKA_KEY_GEN_MECHANISM, CKA_ALWAYS_SENSITIVE and CKA_NEVER_EXTRACTABLE of every live key "
              "against the truth model.",
-        note="Only the listed clauses are judged (stricter library behaviour is fine); SO-session histories are limited to the TRUSTED clause."),
+        note="Only the listed clauses are judged (stricter library behaviour is fine); SO-session histories are limited to the TRUSTED clause. Plus a template-length ladder (history/protection attributes of created, generated, unwrapped and derived keys must not depend on the number of harmless template entries)."),
     "C12": dict(
         category="model_checking", design_ref="DESIGN.md 3/C12",
         technique="explicit-state BFS over Init/single-part/Update/Final call sequences with the NULL-query / announced-size protocol on the real library, lock-step with an operation automaton and a differential completion oracle evaluated in every state",
@@ -113,7 +113,7 @@ CHECKS = {
              "each call first as a length query and then with 0, L-1, L or L+7 announced bytes; every state is probed for CKR_OPERATION_ACTIVE / "
              "CKR_OPERATION_NOT_INITIALIZED behaviour and the pending operation is completed canonically (directly and after an unrelated operation in a second "
              "session) and compared with a clean single-part run; reported lengths are bounded per the statement, canaries guard announced and returned lengths.",
-        note="The 'unchanged' reference is the library's own clean run (independent correctness is C10); verify operations use exact shapes only."),
+        note="The 'unchanged' reference is the library's own clean run (independent correctness is C10); verify operations use exact shapes only. After every CKR_BUFFER_TOO_SMALL answer of a single-part call the same call is retried with the reported length in a throw-away snapshot and judged against a clean run."),
     "C10": dict(
         category="exploration", design_ref="DESIGN.md 3/C10",
         technique="exhaustive grid enumeration (mechanism x key size x every message length x every composition into <=2/3 multi-part calls x direction, plus every single-bit tamper) on the real library against an independent implementation (Botan, hashlib, pure-Python big-integer arithmetic)",
@@ -131,7 +131,7 @@ CHECKS = {
              "value cut to the requested length (leading-zero peers included) with DES parity, too-long requests refused, and every CKA_CHECK_VALUE of an "
              "AES/DES key must be the standard one.",
         note="PKCS#3 DH private keys are parsed with the openssl command line tool (Botan 2 lacks the key type); generic-secret check values are not judged "
-             "(PKCS#11 defines none)."),
+             "(PKCS#11 defines none). CKA_UNWRAP_TEMPLATE: every caller template of 1-4 entries over the restricted attributes (agreeing, conflicting, repeated; front and end) - whenever the unwrap succeeds the restricted attributes read the template's values."),
     "C17": dict(
         category="exploration", design_ref="DESIGN.md 3/C17",
         technique="exhaustive enumeration under AddressSanitizer, one process snapshot per case: keyed operations x object kinds x advertised mechanisms x parameter variants; every single-argument deviation (thorough: all pairs) of a valid request for all 68 entry points from 20 base states; depth-2 Init/continuation sequences; every truncation, byte and length-field mutation of object file, token file and configuration file",
@@ -140,7 +140,7 @@ CHECKS = {
              "caller memory fault immediately.",
         note="Argument domains and mutation menus as in the check source (t=1 quick, t=2 thorough); pointers that do not reference memory of the stated size "
              "(NULL with a length inside parameter structs, NULL template values outside C_GetAttributeValue) are outside the property's precondition and not "
-             "generated; file mutations cover an AES/data object file, an RSA private key file, token.object and softhsm2.conf."),
+             "generated; file mutations cover an AES/data object file, an RSA private key file, token.object and softhsm2.conf. All single-threaded cases run with application mutex callbacks that police the lock protocol (a re-lock of an owned mutex, i.e. a self-deadlock with real mutexes, is reported); after every file mutation searches with byte-string templates and every continuation of a failed search are exercised."),
     "C20": dict(
         category="translation_validation", design_ref="DESIGN.md 3/C20",
         technique="differential exhaustive exploration: every enumerated program (action sequences up to depth 2/3, the keyed-operation decision matrix, the deterministic crypto grid) executed in lock-step under {file, SQLite} x {OpenSSL, Botan} builds of the same tree; traces compared step by step",
@@ -183,7 +183,7 @@ CHECKS = {
         note="Scheduling points are the application mutex callbacks: code between two lock operations runs atomically, so unsynchronised accesses that never meet a "
              "lock are not interleaved (no TSan side pass). File store only (as the property states). Thirteen outcomes in seven bodies (half-created object visible to a "
              "search, attribute read / copy racing with destroy, double destroy, torn multi-attribute read, operation racing with logout, and a heap use after free when "
-             "C_CloseAllSessions races with C_OpenSession) are genuine defects recorded in known_findings.json."),
+             "C_CloseAllSessions races with C_OpenSession) are genuine defects recorded in known_findings.json. Thorough tier: additional ThreadSanitizer pass over every schedule with at most one preemption (scheduler hand-overs hidden from the detector, library locks announced); races are reported per pair of classes; four classes race on the unchanged tree (known findings)."),
 }
 
 NOT_YET = "check under construction in this session; not claimed yet (DESIGN.md Appendix D gives the build order)"
